@@ -18,7 +18,7 @@ def demo_run(tag):
     mpi = "mpi.h" in src or "mc-mpi" in src
     exe = "%s/demo_%s_%s_%s" % (BASE, pid, letter, tag)
     cc = "mpicxx" if mpi else "g++"
-    rc, o = sh("%s -std=c++11 -O1 -I%s/include %s -o %s" % (cc, wt, demo, exe))
+    rc, o = sh("%s -std=c++11 -O1 -pthread -I%s/include %s -o %s" % (cc, wt, demo, exe))
     if rc != 0:
         return "compile-failed", o[-800:]
     codes = []
@@ -32,7 +32,7 @@ def demo_run(tag):
     os.remove(exe)
     return codes, o[-600:]
 sh("git checkout -- . && rm -rf _build", cwd=wt)
-meta = {"property": pid, "change": NAME, "round": 13 if BASE.endswith("mut13") else 12 if BASE.endswith("mut12") else 11 if BASE.endswith("mut11") else 10 if BASE.endswith("mut10") else 9 if BASE.endswith("mut9") else 8 if BASE.endswith("mut8") else 7 if BASE.endswith("mut7") else 6 if BASE.endswith("mut6") else 5 if BASE.endswith("mut5") else 4 if BASE.endswith("mut4") else 3 if BASE.endswith("mut3") else (2 if BASE.endswith("mut2") else 1), "confirmed_at": time.strftime("%Y-%m-%dT%H:%M:%S")}
+meta = {"property": pid, "change": NAME, "round": 14 if BASE.endswith("mut14") else 13 if BASE.endswith("mut13") else 12 if BASE.endswith("mut12") else 11 if BASE.endswith("mut11") else 10 if BASE.endswith("mut10") else 9 if BASE.endswith("mut9") else 8 if BASE.endswith("mut8") else 7 if BASE.endswith("mut7") else 6 if BASE.endswith("mut6") else 5 if BASE.endswith("mut5") else 4 if BASE.endswith("mut4") else 3 if BASE.endswith("mut3") else (2 if BASE.endswith("mut2") else 1), "confirmed_at": time.strftime("%Y-%m-%dT%H:%M:%S")}
 meta["demo_without_change"] = demo_run("clean")[0]
 rc, o = sh("git apply %s" % patch, cwd=wt)
 if rc != 0:
